@@ -288,7 +288,7 @@ class SiteAnalysis:
         if h[0] == "hook":
             reg = h[1]
             self.used_registrations.add(id(reg))
-            ev = HookEval(self.shapes, self.hooks, reg.hook, reg.conv_name, self.hooks.rel)
+            ev = HookEval(self.shapes, self.hooks, reg.hook, reg.conv_name, self.hooks.rel, closure=reg.closure)
             self._eval(site, ev, f"hook:{reg.hook_name}")
             return
         if h[0] == "native":
@@ -344,6 +344,10 @@ class SiteAnalysis:
         k = leaf.kind
         if k == "structure":
             return f"structure({show(leaf.ty)})"
+        if k == "construct":
+            return f"{show(leaf.ty)}(**value)"
+        if k == "lookup":
+            return f"{leaf.name}{'[value]' if leaf.strict else '.get(value)'}"
         if k == "each":
             return "each(" + ast.unparse(leaf.elt)[:70] + ")"
         if k in ("raise", "error"):
@@ -422,6 +426,54 @@ class SiteAnalysis:
                 issues.append(("illtyped", f"returns {show(target)} which is not a member of {show(U)}"))
             if target[0] == "enum" and v[0] != "enum":
                 issues.append(("unsupported", f"{target[1]}(value) raises for values outside the enumeration"))
+            return issues
+        if k == "construct":
+            # C(**value): the keys of the JSON object become keyword arguments
+            try:
+                v = ev.value_at(w, leaf.path)
+            except Fork:
+                raise
+            if v[0] == "error":
+                return [("unsupported", v[1])]
+            issues.append(("kwsplat", f"builds {show(leaf.ty)} with `**<input>`: every undeclared key of the JSON object "
+                                      "becomes an unexpected keyword argument (TypeError)"))
+            c = self.types.classes[leaf.ty[1]]
+            mism = [f.name for f in c.fields if self.camel(f.name) != f.name]
+            if mism:
+                issues.append(("unsound", f"builds {show(leaf.ty)} with `**<input>` although the wire names of {mism[:3]} "
+                                          "differ from the attribute names"))
+            r = self.shapes.sub(v, leaf.ty, False, None, frozenset())
+            if r:
+                issues.append(("unsound", f"{show(leaf.ty)}(**value) on a {show(v)} value: {r}"))
+            nested = [f.name for f in c.fields if not self.shapes.raw_ok(f.resolved)]
+            if nested:
+                issues.append(("illtyped", f"{show(leaf.ty)}(**value) leaves the nested values of {nested[:3]} uninterpreted"))
+            if leaf.path == root and not (members(leaf.ty) <= members(U)):
+                issues.append(("illtyped", f"returns {show(leaf.ty)} which is not a member of {show(U)}"))
+            return issues
+        if k == "lookup":
+            v = alt if leaf.path == root else None
+            if v is None:
+                try:
+                    v = ev.value_at(w, leaf.path)
+                except Fork:
+                    raise
+            keys = set(leaf.table.keys())
+            if v[0] == "enum":
+                vals = {mv for _, mv in self.types.classes[v[1]].members}
+                missing = sorted(vals - keys, key=repr)
+                if missing:
+                    issues.append(("unsupported" if leaf.strict else "unsound",
+                                   f"table {leaf.name} has no entry for the declared value(s) {missing[:3]} of {v[1]}"))
+                if not leaf.strict:
+                    issues.append(("nonstrict-lookup", f"{leaf.name}.get(value) turns every value outside {v[1]} into None "
+                                                       "instead of rejecting it"))
+            elif v[0] == "prim" and v[1] in ("int", "str", "float", "bool"):
+                issues.append(("unsupported" if leaf.strict else "unsound",
+                               f"table lookup {leaf.name} on an arbitrary {show(v)}: values outside the table "
+                               + ("raise KeyError" if leaf.strict else "become None")))
+            else:
+                issues.append(("unsound", f"table lookup {leaf.name} applied to a {show(v)} value"))
             return issues
         if k == "tuple":
             if alt[0] != "tup" or len(alt[1]) != len(leaf.items):
